@@ -156,6 +156,8 @@ def check(ck, F, rule, prefixes, floor):
         if fn is None or "mir" not in fn:
             continue
         if flow.calls_new_function(F, fn):
+            for pair in ref:
+                ck.ok(rule, "%s#%s" % (fid, pair), "not compared: the function now calls a helper that did not exist on the reference tree", nontrivial=False)
             continue
         cur = function_relations(fn)
         for pair, splits in sorted(ref.items()):
